@@ -652,6 +652,7 @@ def rule_com_variations(ctx):
         for comp, q, names in (('x', x, ('dx', 'ax', 'bx', 'abx')), ('vx', v, ('dv', 'av', 'bv', 'abv'))):
             n += 1
             try:
+                leaf.outer_lets = R.function_lets(fn)
                 got, k = R.summand(f, shift + '.' + comp, leaf)
             except KeyError as ex:
                 raise AnalysisError('R20.7: unexpected operand in the order-%d loop of move_to_com: %s' % (order, ex))
